@@ -260,7 +260,9 @@ func ReceivePack(
 		_ = opts.Hooks.PostReceive(ctx, info)
 	}
 
-	if err := sendReportStatus(writeCloser, firstErr, cmdStatus); err != nil {
+	// The pack was unpacked and stored: a refused reference is reported on
+	// its own line, not as an unpack failure.
+	if err := sendReportStatus(writeCloser, nil, cmdStatus); err != nil {
 		return err
 	}
 
